@@ -137,6 +137,10 @@ func (p *Subscribe) Unpack(r io.Reader) (err error) {
 			topic.NoLocal = (1 & (opts >> 2)) > 0
 			topic.RetainAsPublished = (1 & (opts >> 3)) > 0
 			topic.RetainHandling = (3 & (opts >> 4))
+			// It is a Protocol Error to send a Retain Handling value of 3.
+			if topic.RetainHandling > 2 {
+				return codes.ErrProtocol
+			}
 		} else {
 			topic.Qos = opts
 			if topic.Qos > Qos2 {
